@@ -220,6 +220,10 @@ def clone_value(v, memo):
         return tuple(clone_value(x, memo) for x in v)
     if t is list:
         return [clone_value(x, memo) for x in v]
+    if t is dict:
+        return {k: clone_value(x, memo) for k, x in v.items()}
+    if t is Cont:
+        return Cont(v.fn, clone_value(v.data, memo))
     if t is Cell:
         return clone_cell(v, memo)
     # z3 terms are immutable
@@ -465,6 +469,10 @@ class State:
         for fr in self.frames:
             nf = Frame(fr.fn, fr.body, [clone_cell(c, memo) for c in fr.locals], None, fr.ret_bb)
             nf.bb = fr.bb
+            if fr.pending is not None:
+                if not isinstance(fr.pending, Cont):
+                    raise Unsupported("state fork while a non-cloneable continuation is pending")
+                nf.pending = clone_value(fr.pending, memo)
             d = fr.dest
             if d is not None:
                 nf.dest = (clone_cell(d[0], memo), d[1])
@@ -2212,3 +2220,18 @@ class TailCall:
         self.info = info
         self.args = args
         self.then = then
+
+
+class Cont:
+    """a continuation of a summarised call that survives state forks: `fn` is a
+    module-level function fn(machine, state, value, data) and `data` holds only
+    cloneable values (cloned together with the state, aliasing preserved)"""
+
+    __slots__ = ("fn", "data")
+
+    def __init__(self, fn, data):
+        self.fn = fn
+        self.data = data
+
+    def __call__(self, m, st, value):
+        return self.fn(m, st, value, self.data)
